@@ -33,7 +33,10 @@ impl Scenario for C03 {
             gen.broker.seg_mode = pick(&mut cs, "big_seg", &[crate::broker::SegMode::Whole, crate::broker::SegMode::Mtu]).clone();
             gen.broker.deliveries_max = 2;
             gen.net.rd_short_permille = 0;
+            // megabytes in MTU-sized segments take a few million scheduler steps
+            gen.sched.step_cap = 6_000_000;
         }
+        gen.sched.step_cap = gen.sched.step_cap.max(1_500_000);
         let (res, world) = run_generated(&gen, cs, text, |_| {});
         let mut rep = CaseReport::default();
         fill_common(&mut rep, &res, &world);
